@@ -30,6 +30,8 @@ PRODUCERS = set(c10.PRODUCERS) | set(PROD_EXTRA)
 
 
 def gen_plan(rng, tier, index):
+    if rng.chance(0.004):
+        return {'machine': 'sweep', 'variant': rng.randrange(8), 'ops': []}
     if rng.chance(0.35):      # dataset histories under the bystander rule
         fam = c11.gen_data_family(rng)
         n = rng.randint(2, 20 if rng.chance(0.3) else 8)
@@ -41,8 +43,9 @@ def gen_plan(rng, tier, index):
 
 
 def directed_plans(tier):
-    plans = [p for p in c10.directed_plans(tier) if p['ops'][0]['op'] != 'size_recovery']
-    fam = plans[0]['family']
+    plans = [{'machine': 'sweep', 'variant': v, 'ops': []} for v in (0, 1)]
+    plans += [p for p in c10.directed_plans(tier) if p['ops'][0]['op'] != 'size_recovery']
+    fam = plans[2]['family']
     base = {'t': 0, 'u': 0, 'a': [1, 2, 3, 4, 5, 6], 'flag': False, 'flag2': False}
     for prod in PROD_EXTRA:
         for a0 in range(4):
@@ -72,10 +75,27 @@ def directed_plans(tier):
 
 
 def summarize(plan):
+    if plan.get('machine') == 'sweep':
+        return plan
     return c11.summarize(plan) if plan.get('machine') == 'data' else c10.summarize(plan)
 
 
 def execute(plan, ctx):
+    if plan.get('machine') == 'sweep':
+        from sim import sweep
+        import rsatoolbox  # noqa
+        ctx.components.update(['real:every public callable of rsatoolbox.rdm/.data/.model/.inference/.util found by introspection'])
+        status = sweep.sweep(ctx, plan['variant'],
+                             report=lambda sig, msg: ctx.violation('sweep', sig, msg))
+        n_ex = sum(1 for v in status.values() if v == 'exercised')
+        ctx.probe('sweep_callables_exercised', n_ex)
+        ctx.probe('sweep_callables_not_exercised', len(status) - n_ex)
+        ctx.notes['sweep'] = {'callables_found': len(status), 'exercised': n_ex,
+                              'not_exercised': {k: v for k, v in status.items() if v != 'exercised'}}
+        for k, v in status.items():
+            if v == 'exercised':
+                ctx.behaviour('sweep', k)
+        return
     if plan.get('machine') == 'data':
         return c11.execute(plan, ctx, prop=PROPERTY)
     return c10.execute(plan, ctx, prop=PROPERTY)
